@@ -48,6 +48,7 @@ func init() {
 func inJiaZi(s string) bool { return LunarUtil.GetJiaZiIndex(s) >= 0 }
 
 func runC05(w *W) {
+	perturbCache = true
 	sweepDays(w, "C05", func(d *Day, prev *Day) {
 		l0 := d.L()
 		terms := termsOf(l0)
